@@ -68,7 +68,7 @@ ALLOPS = (BODY_TEXT + LISTS + NOTES + PROPS + ["AddImageText"] + HF + ["AddImage
 
 WIDE = dict(TextC=set(TEXTS), KindC={"default", "first", "even"}, FmtC=set(FMTS), NameC=set(NAMES),
             ImgViaC={"data", "file", "noelem"}, CellViaC={"data", "file", "cfg"}, StyleViaC={"custom", "quick", "add"},
-            PageC=set(PAGES), ReopenC={"mem", "file"}, RenderViaC={"doc", "legacy"}, RenderImgC={"none", "png", "jpeg", "gif"},
+            PageC=set(PAGES), ReopenC={"mem", "file"}, RenderViaC={"doc", "legacy"}, RenderImgC={"none", "png", "jpeg", "gif"}, PrepC={True},
             TkC=set(TKS), MkC=set(MKS), MdViaC={"string", "file"})
 
 
@@ -81,7 +81,7 @@ def small(seed, **over):
     a = dict(TextC=rot(HOSTILE, seed), KindC=rot(["default", "first", "even"], seed), FmtC=rot(FMTS, seed),
              NameC=rot(NAMES, seed), ImgViaC=rot(["data", "file", "noelem"], seed), CellViaC=rot(["data", "file", "cfg"], seed),
              StyleViaC=rot(["custom", "quick", "add"], seed), PageC=rot(PAGES, seed), ReopenC=rot(["mem", "file"], seed),
-             RenderViaC=rot(["doc", "legacy"], seed), RenderImgC=rot(["png", "none", "jpeg", "gif"], seed),
+             RenderViaC=rot(["doc", "legacy"], seed), RenderImgC=rot(["png", "none", "jpeg", "gif"], seed), PrepC={False},
              TkC=rot(TKS, seed), MkC=rot(MKS, seed), MdViaC=rot(["file", "string"], seed))
     a.update(over)
     return a
@@ -97,26 +97,26 @@ CORE = ["AddParagraph", "AddHeading", "AddMathFormula", "AddListItem", "AddFootn
         "GenerateTOC", "SetTitle", "UpdateStatistics", "AddHeader", "AddFooterWithPageNumber", "AddFormattedHeader",
         "AddImage", "AddCellImage", "AddImageText", "AddStyle", "RemoveStyle", "SetFootnoteConfig", "RemoveFootnote", "PageSet",
         "AddTemplateBits", "Render", "RenderText", "ConvertMd", "Reopen", "Save", "ToBytes", "RemoveParagraphAt", "UpdateTOC"]
-SMALL = ["AddParagraph", "AddHeader", "AddImage", "AddFootnote", "SetTitle", "AddTemplateBits", "Render", "Reopen", "ToBytes", "AddListItem"]
+SMALL = ["AddHeader", "AddImage", "AddFootnote", "SetTitle", "AddTemplateBits", "Render", "Reopen"]
+SMALL_T = SMALL + ["AddParagraph", "ToBytes", "AddListItem", "AddEndnote", "RenderText", "Save", "AddCellImage"]
 
 
 def plans(seed, q):
     """(tag, ops, argument classes, depth, first, last, lazy)"""
     P = [
         # every operation x every argument class
-        ("single", [o for o in ALLOPS if o != "Render"], WIDE, 1, (), (), False),
-        # rendering a document template that holds placeholders in body, table, header, footer: every value class
-        ("tpl", ["AddTemplateBits", "Render"], WIDE, 2, ("AddTemplateBits",), ("Render",), False),
-        # header/footer/body text of a hostile class, then rendered with values of a hostile class
-        ("hfr", HF + ["AddParagraph", "Render"], small(seed, TextC=rot(HOSTILE, seed, 3), KindC={"default"}, RenderImgC={"none"}), 2,
-         HF + ["AddParagraph"], ("Render",), False),
+        # (Render: of a template document that holds placeholders in body, table, header, footer)
+        ("single", ALLOPS, WIDE, 1, (), (), False),
         # every pair over the core alphabet
         ("pairs", CORE, small(seed), 2, (), (), True),
         # every triple over the small alphabet
-        ("triples", SMALL if q else SMALL + ["AddEndnote", "RenderText", "Save", "AddCellImage"], small(seed + 1), 3, (), (), q is False),
+        ("triples", SMALL if q else SMALL_T, small(seed + 1), 3, (), (), q is False),
     ]
     if not q:
         P += [
+            # header/footer/body text of a hostile class, then rendered with values of a hostile class
+            ("hfr", HF + ["AddParagraph", "Render"], small(seed, TextC=rot(HOSTILE, seed, 3), KindC={"default"}, RenderImgC={"none"}), 2,
+             HF + ["AddParagraph"], ("Render",), False),
             ("pairs2", CORE, small(seed + 2, TextC=rot(TEXTS, seed + 2)), 2, (), (), True),
             ("pairs3", [o for o in ALLOPS if o not in CORE] + ["Reopen", "Render", "ToBytes"], small(seed + 3), 2, (), (), True),
             ("imgpairs", ["AddImage", "AddCellImage", "Reopen", "Render", "AddTemplateBits"],
@@ -168,16 +168,16 @@ def pipeline(ctx, replay_case=None):
     # seeded random long behaviours over the whole alphabet; -simulate evaluates every successor at every step, so each
     # run draws from pools narrowed by rotation (run k of seed s uses rotation s + k) and ends in a save entry point
     d = 10 if q else 24
-    for k in range(2 if q else 6):
+    for k in range(1 if q else 6):
         r = ctx.seed + k
         pools = small(r, TextC=rot(TEXTS, r, 2) | rot(HOSTILE, r), FmtC=rot(FMTS, r, 2), NameC=rot(NAMES, r, 2),
-                      KindC={"default", "first", "even"}, RenderImgC={"none", "png"}, ReopenC={"mem", "file"})
+                      KindC={"default", "first", "even"}, RenderImgC={"none", "png"}, ReopenC={"mem", "file"}, PrepC={True, False})
         cs = ctx.tlc_gen("Pkg_MC.tla", gencfg(ctx, "gen_sim%d.cfg" % k, ALLOPS, pools, d, last=["ToBytes", "Save"]),
-                         "sim%d" % k, mode="sim", num=40 if q else 150, depth=d + 1, seed_off=k, limit=120 if q else 400)
+                         "sim%d" % k, mode="sim", num=25 if q else 150, depth=d + 1, seed_off=k, limit=60 if q else 400)
         for c in cs:
             c["extra"] = {"lazy": True}
         allc += cs
-    bounds["sim"] = {"depth": d, "runs": 2 if q else 6}
+    bounds["sim"] = {"depth": d, "runs": 1 if q else 6}
     for c in allc:
         for s in c["steps"]:
             cnt[s["op"]] += 1
